@@ -152,7 +152,8 @@ def replay_manager(inputs, label, cls, w, n, pre, budget=None):
 
 
 # ---------------------------------------------------------------- baselines
-def sym_baseline(c, cls, n, pre):
+def sym_baseline(c, cls, n, pre, as_list=False):
+    """as_list: the candidates are handed over as a list of lists (array-like) to query and update alike"""
     st = sl.st_mod()
     B = sl.sym_budget(c)
     seed = fresh_int("seed", 0, 2 ** 32 - 1)
@@ -179,7 +180,7 @@ def sym_baseline(c, cls, n, pre):
         dec, utils = [], []
         ok = True
         for size in comp:
-            X = F.zeros((size, 1))
+            X = [[0.0] for _ in range(size)] if as_list else F.zeros((size, 1))
             idx, u = qs.query(X, return_utilities=True)
             idl = [int(i) for i in idx]
             c.prove(all(0 <= i < size for i in idl) and all(a < b for a, b in zip(idl, idl[1:])),
@@ -187,7 +188,7 @@ def sym_baseline(c, cls, n, pre):
             c.prove(tuple(np.shape(u)) == (size,), "one_utility_per_candidate")
             try:
                 qs.update(X, idx)
-            except (IndexError, ValueError, TypeError) as e:
+            except (IndexError, ValueError, TypeError, AttributeError) as e:
                 c.prove(False, "update_accepts_query_result", info=dict(comp=comp, error=repr(e)))
                 ok = False
                 break
@@ -210,7 +211,7 @@ def sym_baseline(c, cls, n, pre):
     c.witness(ref is not None and len(ref[0]) >= 1, "some_granted")
 
 
-def replay_baseline(inputs, label, cls, n, pre):
+def replay_baseline(inputs, label, cls, n, pre, as_list=False):
     if pre == "arbitrary":
         return None, "symbolic pre-state: candidate only"
     st = sl.st_mod()
@@ -228,7 +229,7 @@ def replay_baseline(inputs, label, cls, n, pre):
             dec, utils = [], []
             bad = None
             for size in comp:
-                X = np.zeros((size, 1))
+                X = [[0.0] for _ in range(size)] if as_list else np.zeros((size, 1))
                 idx, u = qs.query(X, return_utilities=True)
                 idl = np.asarray(idx).tolist()
                 if not (all(0 <= i < size for i in idl) and all(a < b for a, b in zip(idl, idl[1:]))):
@@ -237,7 +238,7 @@ def replay_baseline(inputs, label, cls, n, pre):
                     bad = "one_utility_per_candidate"
                 try:
                     qs.update(X, idx)
-                except (IndexError, ValueError, TypeError) as e:
+                except (IndexError, ValueError, TypeError, AttributeError) as e:
                     bad = "update_accepts_query_result"
                 if bad:
                     break
@@ -301,7 +302,8 @@ def _cfg_manager(tier):
 
 def _cfg_base(tier):
     return [dict(cls=k, n=n, pre=p) for k in ("PeriodicSampling", "StreamRandomSampling", "StreamRandomSampling_exceed")
-            for p in ("fresh", "arbitrary") for n in range(2, (3 if tier == "quick" else 5) + 1)]
+            for p in ("fresh", "arbitrary") for n in range(2, (3 if tier == "quick" else 5) + 1)] + \
+        [dict(cls=k, n=2, pre="fresh", as_list=True) for k in ("PeriodicSampling", "StreamRandomSampling")]
 
 
 HARNESSES = [
@@ -314,7 +316,7 @@ HARNESSES = [
 ]
 
 from harness import density as _density  # noqa: E402
-HARNESSES = HARNESSES + _density.harnesses_c10()
+HARNESSES = HARNESSES + _density.harnesses_c10() + _density.harnesses_c10_chunking()
 from harness import spal as _spal  # noqa: E402
 HARNESSES = HARNESSES + _spal.harnesses_c10()
 
